@@ -14,4 +14,5 @@ Extraction "model.ml" dlen spec_round round_fract round_ratio normalize repr_rou
   round_low_part int_tiny to_int_tiny
   blen sat_mul fract_cheap round_fract_pre4 round_fract_debug4 round_ratio_pre4 round_ratio_pub4 round_fract_tiny round_fract_any4
   round_fract_sz to_int_full4 bit_len_gen round_fract_chk4
-  trunc_gen split_at_point_gen fract_gen ceil_gen floor_gen round_gen to_int_gen repr_to_int_gen split_internal_gen.
+  trunc_gen split_at_point_gen fract_gen ceil_gen floor_gen round_gen to_int_gen repr_to_int_gen split_internal_gen
+  repr_round_gen repr_round_ref_gen with_precision_rounds_gen sat_sub.
